@@ -22,9 +22,9 @@ Rec == ndJsonDeserialize(IOEnv.TRACE)
 MaxId == 255
 Ids == 0..MaxId
 
-VARIABLES l, fs, everIn, bad, kmm, caseId, inCall, outside0
+VARIABLES l, fs, everIn, bad, kmm, caseId, inCall, outside0, fs0, calls, attacked
 
-vars == <<l, fs, everIn, bad, kmm, caseId, inCall, outside0>>
+vars == <<l, fs, everIn, bad, kmm, caseId, inCall, outside0, fs0, calls, attacked>>
 
 EmptyFs == [dents |-> {}, kind |-> [i \in Ids |-> "free"], body |-> [i \in Ids |-> <<>>]]
 
@@ -42,7 +42,7 @@ OutsideOf(f) ==
 
 Init ==
     /\ l = 1 /\ fs = EmptyFs /\ everIn = {} /\ bad = <<>> /\ kmm = <<>> /\ caseId = "" /\ inCall = FALSE
-    /\ outside0 = {}
+    /\ outside0 = {} /\ fs0 = EmptyFs /\ calls = <<>> /\ attacked = FALSE
 
 Bad(prop, what, e) == Append(bad, [prop |-> prop, what |-> what, case |-> caseId, line |-> l, nr |-> e.nr, d1 |-> e.d1, n1 |-> e.n1])
 Kmm(what, e) == Append(kmm, [what |-> what, case |-> caseId, line |-> l, nr |-> e.nr, d1 |-> e.d1, n1 |-> e.n1, ret |-> e.ret])
@@ -67,32 +67,88 @@ OneComponent(n) == n # "" /\ \A i \in 1..Len(n) : SubSeq(n, i, i) # "/"
 \* expected errno class of a failed mutation according to the model ("" = success)
 ModelErr(f, e) == LET r == Apply(f, e).res IN IF r.ok THEN "" ELSE r.err
 
+
+(***************************************************************************)
+(* Postconditions of mkdir_all (C12) and remove_all (C13), evaluated on    *)
+(* the real initial and final snapshots once all calls of a case (one or   *)
+(* several library processes, no attacker) have returned.                  *)
+(***************************************************************************)
+FollowDir == [follow |-> TRUE, dir |-> FALSE, opath |-> TRUE, nosym |-> FALSE]
+NoFollow  == [follow |-> FALSE, dir |-> FALSE, opath |-> TRUE, nosym |-> FALSE]
+NonDot(raw) == SelectSeq(raw, LAMBDA c : c \notin {"", "."})
+Added(f)   == f.dents \ fs0.dents
+Removed(f) == fs0.dents \ f.dents
+\* the added entries are directories forming one chain per caller: every added entry is a new
+\* directory whose parent is an old directory or another added directory
+AddedAreNewDirs(f) == \A d \in Added(f) : f.kind[d[3]] = "dir" /\ fs0.kind[d[3]] = "free"
+\* names of the added entries all occur among the (non-dot) components of some mkdir_all path
+AddedNamesFromPaths(f) ==
+    \A d \in Added(f) : \E i \in DOMAIN calls : calls[i].op = "mkdir_all" /\ \E j \in DOMAIN calls[i].path : calls[i].path[j] = d[2]
+\* everything removed lies in the initial subtree of one of the remove_all targets
+Target(c) ==   \* the dentry (parent inode, name) a remove_all path names in the initial tree, or <<0, "">>
+    LET raw == c.path
+        sp  == IF Len(raw) = 1 THEN [dir |-> <<".">>, name |-> raw[1]]
+               ELSE [dir |-> IF SubSeq(raw, 1, Len(raw) - 1) = <<"">> THEN <<"", "">> ELSE SubSeq(raw, 1, Len(raw) - 1), name |-> raw[Len(raw)]]
+        pr  == KResolve(fs0, R, sp.dir, FollowDir, 40)
+    IN  IF pr.ok /\ sp.name \notin {"", ".", ".."} /\ HasChild(fs0, pr.ino, sp.name) THEN <<pr.ino, sp.name>> ELSE <<0, "">>
+SubtreeDents(t) ==
+    IF t[1] = 0 THEN {}
+    ELSE LET top == Child(fs0, t[1], t[2])
+             below == IF IsDir(fs0, top) THEN ReachFrom(fs0, {top}) ELSE {}
+         IN  {<<t[1], t[2], top>>} \cup {d \in fs0.dents : d[1] \in below}
+PostViolations(f, e) ==
+    LET mk == {i \in DOMAIN calls : calls[i].op = "mkdir_all"}
+        rm == {i \in DOMAIN calls : calls[i].op = "remove_all"}
+        mkOk == {i \in mk : calls[i].ok}
+        rmOk == {i \in rm : calls[i].ok}
+        v1 == IF mk # {} /\ (Removed(f) # {} /\ rm = {}) THEN <<[prop |-> "C12", what |-> "mkdir_all removed or replaced an existing entry", case |-> caseId, line |-> l, nr |-> "", d1 |-> 0, n1 |-> ""]>> ELSE <<>>
+        v2 == IF mk # {} /\ rm = {} /\ ~(AddedAreNewDirs(f) /\ AddedNamesFromPaths(f)) THEN <<[prop |-> "C12", what |-> "mkdir_all added something other than new directories named by its path", case |-> caseId, line |-> l, nr |-> "", d1 |-> 0, n1 |-> ""]>> ELSE <<>>
+        v3 == IF \E i \in mkOk : rm = {} /\ LET k == KResolve(f, R, calls[i].path, FollowDir, 40) IN ~(k.ok /\ k.ino = calls[i].rid /\ IsDir(f, k.ino))
+              THEN <<[prop |-> "C12", what |-> "mkdir_all succeeded but its handle is not the in-root resolution of the path in the final tree", case |-> caseId, line |-> l, nr |-> "", d1 |-> 0, n1 |-> ""]>> ELSE <<>>
+        v5 == IF mk # {} /\ rm = {} /\ e.rid >= 0 /\ (\E d \in Added(f) : \E x \in ToSet(e.inodes) : x[1] = d[3] /\ x[4] # e.rid)
+              THEN <<[prop |-> "C12", what |-> "mkdir_all created a directory whose mode is not the requested one (modulo umask)", case |-> caseId, line |-> l, nr |-> "", d1 |-> 0, n1 |-> ""]>> ELSE <<>>
+        v4 == IF e.expectall /\ (\E i \in mk : ~calls[i].ok) THEN <<[prop |-> "C12", what |-> "a concurrent mkdir_all failed although the same call succeeds when run alone", case |-> caseId, line |-> l, nr |-> "", d1 |-> 0, n1 |-> ""]>> ELSE <<>>
+        w1 == IF rm # {} /\ mk = {} /\ Added(f) # {} THEN <<[prop |-> "C13", what |-> "remove_all added an entry", case |-> caseId, line |-> l, nr |-> "", d1 |-> 0, n1 |-> ""]>> ELSE <<>>
+        w2 == IF rm # {} /\ mk = {} /\ ~(Removed(f) \subseteq UNION {SubtreeDents(Target(calls[i])) : i \in rm})
+              THEN <<[prop |-> "C13", what |-> "remove_all removed an entry outside the named subtree", case |-> caseId, line |-> l, nr |-> "", d1 |-> 0, n1 |-> ""]>> ELSE <<>>
+        w3 == IF \E i \in rmOk : Target(calls[i])[1] # 0 /\ HasChild(f, Target(calls[i])[1], Target(calls[i])[2]) /\ mk = {}
+              THEN <<[prop |-> "C13", what |-> "remove_all succeeded but the named entry still exists", case |-> caseId, line |-> l, nr |-> "", d1 |-> 0, n1 |-> ""]>> ELSE <<>>
+        w4 == IF \E i \in rmOk : Target(calls[i])[1] # 0 /\ mk = {} /\ ~(SubtreeDents(Target(calls[i])) \subseteq Removed(f))
+              THEN <<[prop |-> "C13", what |-> "remove_all succeeded but part of the named subtree is still there", case |-> caseId, line |-> l, nr |-> "", d1 |-> 0, n1 |-> ""]>> ELSE <<>>
+        w5 == IF e.expectall /\ (\E i \in rm : ~calls[i].ok) THEN <<[prop |-> "C13", what |-> "a concurrent remove_all failed although the same call succeeds when run alone", case |-> caseId, line |-> l, nr |-> "", d1 |-> 0, n1 |-> ""]>> ELSE <<>>
+    IN  v1 \o v2 \o v3 \o v4 \o v5 \o w1 \o w2 \o w3 \o w4 \o w5
+
 Step ==
     /\ l <= Len(Rec)
     /\ l' = l + 1
     /\ LET e == Rec[l] IN
        CASE e.ev = "init" ->
               /\ fs' = FsOf(e) /\ everIn' = ReachFrom(FsOf(e), {R}) /\ caseId' = e.case /\ inCall' = FALSE
-              /\ outside0' = OutsideOf(FsOf(e))
+              /\ outside0' = OutsideOf(FsOf(e)) /\ fs0' = FsOf(e) /\ calls' = <<>> /\ attacked' = FALSE
               /\ UNCHANGED <<bad, kmm>>
          [] e.ev = "begin" ->
               \* "at some moment during the call": the window opens here
               /\ everIn' = ReachFrom(fs, {R}) /\ inCall' = TRUE
-              /\ UNCHANGED <<fs, bad, kmm, caseId, outside0>>
+              /\ UNCHANGED <<fs, bad, kmm, caseId, outside0, fs0, calls, attacked>>
          [] e.ev = "att" ->
               \* attacker mutation: replay it; the model must agree with the kernel about success
               LET r == Apply(fs, e) IN
               /\ fs' = IF e.ret = 0 /\ r.res.ok THEN r.fs ELSE fs
               /\ kmm' = IF (e.ret = 0) # r.res.ok THEN Kmm("attacker step: model and kernel disagree", e) ELSE kmm
               /\ everIn' = everIn \cup ReachFrom(fs', {R})
-              /\ UNCHANGED <<bad, caseId, inCall, outside0>>
+              /\ attacked' = TRUE
+              /\ UNCHANGED <<bad, caseId, inCall, outside0, fs0, calls>>
          [] e.ev = "sys" ->
               LET r    == Apply(fs, e)
                   okk  == e.ret >= 0
                   nfs  == IF IsMutation(e) /\ okk /\ r.res.ok THEN r.fs ELSE fs
                   c03a == Touches(e) /\ (e.d1 \notin everIn \/ (TwoDirs(e) /\ e.d2 \notin everIn))
                   c03b == Touches(e) /\ (~OneComponent(e.n1) \/ (TwoDirs(e) /\ ~OneComponent(e.n2)))
-                  c03c == IsMutation(e) /\ okk /\ OutsideOf(nfs) # OutsideOf(fs)
+                  \* (the region outside the root may change through a directory that *was* inside and has
+                  \*  been moved out by the attacker: the property only forbids touching entries of
+                  \*  directories that were never inside, which is c03a; with no attacker c03a implies the
+                  \*  outside frame, which the static check verifies on snapshots)
+                  c03c == IsMutation(e) /\ okk /\ ~attacked /\ OutsideOf(nfs) # OutsideOf(fs)
                   b1 == IF c03a THEN Bad("C03", "library touched an entry of a directory that was never inside the root", e) ELSE bad
                   b2 == IF c03b THEN Append(b1, [prop |-> "C03", what |-> "name is not a single component", case |-> caseId, line |-> l, nr |-> e.nr, d1 |-> e.d1, n1 |-> e.n1]) ELSE b1
                   b3 == IF c03c THEN Append(b2, [prop |-> "C03", what |-> "library step changed the tree outside the root", case |-> caseId, line |-> l, nr |-> e.nr, d1 |-> e.d1, n1 |-> e.n1]) ELSE b2
@@ -101,18 +157,24 @@ Step ==
               /\ bad' = b3
               /\ kmm' = IF IsMutation(e) /\ e.d1 # 0 /\ ~e.inj /\ (okk # r.res.ok) THEN Kmm("library step: model and kernel disagree", e) ELSE kmm
               /\ everIn' = everIn \cup ReachFrom(nfs, {R})
-              /\ UNCHANGED <<caseId, inCall, outside0>>
+              /\ UNCHANGED <<caseId, inCall, outside0, fs0, calls, attacked>>
          [] e.ev = "end" ->
               \* C02: a successful lookup result was inside the root at some moment of the call
               /\ bad' = IF e.flag = "lookup" /\ e.ret = 0 /\ e.rid \notin everIn
-                        THEN Bad("C02", "lookup returned an object that was never inside the root", e) ELSE bad
+                        THEN Bad("C02", "lookup returned an object that was never inside the root", e)
+                        \* (an object the call itself created is covered by the rule for its parent directory)
+                        ELSE IF e.flag = "fdret" /\ e.ret = 0 /\ e.rid \notin everIn /\ e.rid \in Ids /\ fs0.kind[e.rid] # "free"
+                        THEN Bad("C03", "mutating operation returned a descriptor of an object that was never inside the root", e)
+                        ELSE bad
               /\ inCall' = FALSE
-              /\ UNCHANGED <<fs, everIn, kmm, caseId, outside0>>
+              /\ calls' = Append(calls, [op |-> e.op, path |-> e.body, ok |-> (e.ret = 0), rid |-> e.rid, who |-> e.who])
+              /\ UNCHANGED <<fs, everIn, kmm, caseId, outside0, fs0, attacked>>
          [] e.ev = "snap" ->
               \* the model's tree must equal the real final tree (nothing unlogged happened)
               /\ kmm' = IF FsOf(e).dents # fs.dents THEN Kmm("final snapshot differs from the model's tree", e) ELSE kmm
-              /\ UNCHANGED <<fs, everIn, bad, caseId, inCall, outside0>>
-         [] OTHER -> UNCHANGED <<fs, everIn, bad, kmm, caseId, inCall, outside0>>
+              /\ bad' = IF e.flag = "post" THEN bad \o PostViolations(FsOf(e), e) ELSE bad
+              /\ UNCHANGED <<fs, everIn, caseId, inCall, outside0, fs0, calls, attacked>>
+         [] OTHER -> UNCHANGED <<fs, everIn, bad, kmm, caseId, inCall, outside0, fs0, calls, attacked>>
 
 Spec == Init /\ [][Step]_vars
 
